@@ -576,3 +576,22 @@ Proof.
   rewrite vars_in_sum in Hsz. rewrite (vars_out_sum tbs tks' ltac:(lia)) in Hsz.
   unfold size_without_mdat. f_equal. lia.
 Qed.
+
+(* C10_output_decodes with the position of the new mdat: the encoded boxes are exactly sizeWithoutMdat bytes long *)
+Lemma crop_tool_decodes_pos input ms out_bytes :
+  bytes_ok input = true -> crop_tool input ms = Some (Ok out_bytes) -> lenN out_bytes < 18446744073709551616 ->
+  exists ts ci out ranges swm, decode_file_sr input = FOk ts /\ scope input ts = Some ci /\
+    crop_tree ts ci ms = Ok (out, ranges, swm) /\
+    (forallb exact_box ts = true -> forallb tree_fits out = true ->
+     output_ok input ci ts out ranges out_bytes /\
+     exists pre tail, file_encode_w out = Ok pre /\ out_bytes = pre ++ tail /\ lenN pre = swm).
+Proof.
+  intros Hok Htool Hlen.
+  destruct (crop_tool_decodes _ _ _ Hok Htool Hlen) as (ts & ci & out & ranges & swm & Hd & Hs & Hc & H).
+  exists ts, ci, out, ranges, swm. split; [assumption|]. split; [assumption|]. split; [assumption|].
+  intros Hex Hfits. destruct (H Hex Hfits) as (nd & xs & pre & body & H2 & H3 & H4 & H5 & H6 & H7 & H8 & H9 & H10).
+  split; [now exists nd, xs, pre, body|].
+  exists pre, (enc_hdr n_mdat (8 + lenN body) ++ body). split; [assumption|]. split; [assumption|].
+  rewrite (crop_tree_size _ _ _ _ _ _ _ Hs Hc), <- H5. unfold u64. symmetry. apply N.mod_small.
+  rewrite H9, lenN_app in Hlen. lia.
+Qed.
